@@ -1,7 +1,8 @@
 """io/_text.py (readtxt, writetxt) and py3compat.py (safe_decode / safe_str) -> Gen/KCsv.v
 
 Translated (the Coq term follows the source): safe_decode's decision chain, the
-is_2d guard of writetxt, the BOM constant and the BOM-stripping rule of the
+is_2d guard of writetxt and DataMatrix.is_2d itself (the loop over the columns
+that tests hasattr(col, 'depth')), the BOM constant and the BOM-stripping rule of the
 header, the dialect arguments of csv.reader / csv.writer (delimiter, quotechar,
 lineterminator), the fill value of missing cells.
 Pinned (must be literally what the model in Model/Csv.v was written against;
@@ -290,6 +291,52 @@ def gen_text(tree, out):
     out.append('Definition k_cell_str (shf : fl -> string) (v : pyv) : res pyv := %s shf v.\n' % fns[lc2.elt.func.id])
 
 
+def bool_const(node, what):
+    if isinstance(node, ast.Constant) and node.value is True:
+        return 'true'
+    if isinstance(node, ast.Constant) and node.value is False:
+        return 'false'
+    raise TranslationError('%s: expected True / False, found %s' % (what, ast.unparse(node)))
+
+
+def gen_is_2d(dmod, out):
+    """DataMatrix.is_2d (what writetxt's guard reads) -> k_is_2d over the column objects of the table.
+    Grammar: `for name, col in self.columns: if hasattr(col, 'depth'): return <bool>` followed by `return <bool>`;
+    a column object is seen as `colobj` (Base/CsvPy.v): the value of its depth attribute if it has one.
+    Pinned: DataMatrix.columns enumerates every entry of self._cols."""
+    fn = find_function(dmod, 'DataMatrix.is_2d')
+    if [ast.unparse(d) for d in fn.decorator_list] != ['property'] or [a.arg for a in fn.args.args] != ['self']:
+        raise TranslationError('is_2d: not a plain property')
+    body = body_nodoc(fn)
+    if len(body) != 2 or not isinstance(body[0], ast.For) or not isinstance(body[1], ast.Return):
+        raise TranslationError('is_2d: expected a for loop followed by a return')
+    loop = body[0]
+    if loop.orelse or ast.unparse(loop.target) != '(name, col)' or ast.unparse(loop.iter) != 'self.columns' \
+            or len(loop.body) != 1:
+        raise TranslationError('is_2d: loop shape')
+    cond = loop.body[0]
+    if not isinstance(cond, ast.If) or cond.orelse or len(cond.body) != 1 or not isinstance(cond.body[0], ast.Return):
+        raise TranslationError('is_2d: loop body')
+    t = cond.test
+    if not (isinstance(t, ast.Call) and isinstance(t.func, ast.Name) and t.func.id == 'hasattr' and not t.keywords
+            and len(t.args) == 2 and ast.unparse(t.args[0]) == 'col' and isinstance(t.args[1], ast.Constant)
+            and t.args[1].value == 'depth'):
+        raise TranslationError('is_2d: test %s' % ast.unparse(t))
+    inside = bool_const(cond.body[0].value, 'is_2d: return inside the loop')
+    after = bool_const(body[1].value, 'is_2d: final return')
+    out.append('Definition k_is_2d (columns : list (string * colobj)) : bool :=\n'
+               '  (fix loop_ (l_ : list (string * colobj)) : bool :=\n'
+               '     match l_ with\n'
+               '     | [] => %s\n'
+               '     | (name, col) :: r_ => if (col_hasattr_depth col) then %s else loop_ r_\n'
+               '     end) columns.\n' % (after, inside))
+    cols = find_function(dmod, 'DataMatrix.columns')
+    cb = body_nodoc(cols)
+    if [ast.unparse(d) for d in cols.decorator_list] != ['property'] or len(cb) != 1:
+        raise TranslationError('DataMatrix.columns: shape')
+    expect_same(cb[0], 'return self._to_list(self._cols.items(), key=lambda col: col[0])', 'every column is enumerated')
+
+
 def gen(repo):
     compat = load(repo, 'datamatrix/py3compat.py')
     text = load(repo, 'datamatrix/io/_text.py')
@@ -323,4 +370,5 @@ def gen(repo):
     expect_same(loop.body[1], 'self[name] = self._default_col_type')
     expect_same(loop.body[2], 'self[name][:len(col)] = col')
     expect_same(fb[1], 'return self')
+    gen_is_2d(dmod, out)
     return ''.join(out)
